@@ -277,7 +277,7 @@ func runC11(rep *Report, tier string, seed int64) {
 		"(zero, empty and nil values included); oracle: the caller's function ran exactly once per invocation with the supplied values and its value/error came back to that invocation. " +
 		"Plus a differential of the real convertValue against the Lean model on source×destination pairs. distinct = (config, direction, invocation plan | value row | conversion pair)"
 	rng := rand.New(rand.NewSource(seed))
-	rounds := 6
+	rounds := 30
 	if tier == "thorough" {
 		rounds = 100
 	}
@@ -388,9 +388,9 @@ func waitFor(cond func() bool) {
 func runC12(rep *Report, tier string, seed int64) {
 	rep.Rule = "a call passes a closure which the callee keeps; the call exits by success / marshal failure of a later item / cancellation / link death; during the call the kept closure is invoked (must run), after it returned it is invoked again " +
 		"(must yield 'closure does not exist' and not run); the registration count (read-only hook) must be 1 during and 0 after. distinct = (config, exit path)"
-	reps := 1
+	reps := 6
 	if tier == "thorough" {
-		reps = 40
+		reps = 60
 	}
 	for r := 0; r < reps; r++ {
 		for _, api := range apis() {
